@@ -83,11 +83,22 @@ def compare(col, doc, sel, text, comp, case, also_root=True):
     els = doc.elements()
     exp = [d for d in els if R.match_list(rctx, d, sel)]
     col.count()
-    try:
-        got = comp.select(doc.target)
-    except Exception as e:  # noqa: BLE001
-        col.fail('exception-' + type(e).__name__, case, f'{text!r}: {e!r}')
-        return exp, els
+    if isinstance(case, dict) and case.get('huge'):
+        # astronomically large terms: run under the CPU-time interrupt (a walk that steps one n at a time never returns)
+        kind, got = common.guarded_call(lambda: comp.select(doc.target))
+        if kind in ('hang', 'slow'):
+            if kind == 'hang':
+                col.fail('nth-does-not-terminate', case, f'{text!r}: select() burnt 10 s of CPU and then exceeded 3000000 traced steps')
+            return exp, els
+        if kind == 'raise':
+            col.fail('exception-' + type(got).__name__, case, f'{text!r}: {got!r}')
+            return exp, els
+    else:
+        try:
+            got = comp.select(doc.target)
+        except Exception as e:  # noqa: BLE001
+            col.fail('exception-' + type(e).__name__, case, f'{text!r}: {e!r}')
+            return exp, els
     if [id(x) for x in got] != [id(x) for x in exp]:
         order = {id(e): j for j, e in enumerate(els)}
         col.fail('nth-mismatch', case, f'{text!r} on {str(doc.target)!r}: soupsieve {[order.get(id(x)) for x in got]} '
@@ -95,11 +106,20 @@ def compare(col, doc, sel, text, comp, case, also_root=True):
     if also_root and not isinstance(doc.target, trees.BeautifulSoup):
         col.count()
         e = R.match_list(rctx, doc.target, sel)
-        try:
-            g = comp.match(doc.target)
-        except Exception as ex:  # noqa: BLE001
-            col.fail('exception-' + type(ex).__name__, case, f'match({text!r}) on the detached root: {ex!r}')
-            return exp, els
+        if isinstance(case, dict) and case.get('huge'):
+            kind, g = common.guarded_call(lambda: comp.match(doc.target))
+            if kind == 'hang':
+                col.fail('nth-does-not-terminate', case, f'match({text!r}) on the detached root burnt 10 s of CPU and then exceeded 3000000 traced steps')
+            if kind != 'ok':
+                if kind == 'raise':
+                    col.fail('exception-' + type(g).__name__, case, f'match({text!r}) on the detached root: {g!r}')
+                return exp, els
+        else:
+            try:
+                g = comp.match(doc.target)
+            except Exception as ex:  # noqa: BLE001
+                col.fail('exception-' + type(ex).__name__, case, f'match({text!r}) on the detached root: {ex!r}')
+                return exp, els
         if bool(g) != bool(e):
             col.fail('nth-mismatch-detached-root', case, f'{text!r}: match(detached root) soupsieve {g} reference {e}')
     return exp, els
@@ -257,7 +277,13 @@ def gen_case(ch, tier):
     el = ch.pick(g.elems)
     p = g.nth_for(el)
     mag = 10 ** 6 if big else ch.pick((8, 8, 40, 10 ** 4))
-    if ch.p(0.5):
+    huge = ch.i(0, 14) == 0
+    if huge:
+        # beyond what a float holds exactly (2**53) and far beyond: the arithmetic has to be exact integer arithmetic
+        mag = ch.pick((2 ** 53 + 2, 10 ** 16 + 1, 10 ** 18, 10 ** 30, 10 ** 100))
+        p['a'] = ch.pick((1, -1, 2, -2, 3, -3, 7, -7))
+        p['b'] = ch.pick((1, -1)) * (mag + ch.i(-4, 4)) if p['a'] * ch.pick((1, 1, -1)) < 0 or ch.p(0.3) else -(mag + ch.i(-4, 4))
+    elif ch.p(0.5):
         p['a'] = ch.i(-mag, mag) if not big else ch.i(-5, 5)
         if ch.p(0.5):
             p['b'] = ch.i(-mag, mag)
@@ -275,7 +301,7 @@ def gen_case(ch, tier):
     nsmap = None
     if recipe['kind'] in ('xml-api', 'lxml-xml') and ch.p(0.5):
         nsmap = ch.pick(({'': 'urn:a'}, {'': ''}, {'p': 'urn:a'}, {'': 'urn:none'}))
-    return {'tree': recipe, 'sel': sel, 'nsmap': nsmap}, doc
+    return {'tree': recipe, 'sel': sel, 'nsmap': nsmap, 'huge': bool(huge)}, doc
 
 
 def evaluate(case, doc=None):
